@@ -87,8 +87,8 @@ class World:
         if self.havoc is not None:
             self.havoc(datain)
         task.status = self.status
-        if self.status == 0x02:
-            task.raw_sense = self.sense
+        if self.status == 0x02 and self.sense is not None:
+            task.raw_sense = self.sense  # a binding that has no sense to offer leaves the attribute unset
 
     def events(self, kind):
         return [t for t in self.trace if t[0] == kind]
